@@ -57,6 +57,7 @@ inductive Act
   | defaultVerifyPaths           -- `SSL_CTX_set_default_verify_paths(ctx)`
   | fail                         -- unconditional `return false`
   | applyFloor                   -- `applyTls12Floor(ctx, cfg.minVersion)`
+  | setVerifyDepth               -- `SSL_CTX_set_verify_depth(ctx, cfg.verifyDepth)`
   | setCipherList                -- `SSL_CTX_set_cipher_list(ctx, cfg.ciphers)`: decides which key exchanges (incl. anonymous ones) are on offer
   | other (name : String)        -- a call recorded for completeness, without effect on the plan (ciphers, ALPN, depth)
   deriving DecidableEq, Repr
